@@ -402,3 +402,21 @@ Proof.
     + destruct (Hfin (RWOk (map lg_id (draw (s_seq g) v n 0))) true) as [F1 [F2 [F3 [F4 [F5 [F6 F7]]]]]].
       split; simpl; auto; fast_field v Hv A1 A3 A5 A9 A10 A14 Hlk F1 Hbg.
 Qed.
+
+Theorem iinv_all_schedules g sched : iinv g -> iinv (irun g sched).
+Proof. apply irun_inv. apply istep_inv. Qed.
+
+Lemma nth_new_iws ops w s : nth_error (map (fun o => new_iw (o, false)) ops) w = Some s -> exists o, s = new_iw (o, false).
+Proof. rewrite nth_error_map. destruct (nth_error ops w); simpl; [|discriminate]. intros H. inversion H. eauto. Qed.
+
+(* a pristine ledger, every request through a facade that says initializing *)
+Lemma iinv_init hash ops : iinv (iinit hash ops).
+Proof.
+  split; simpl.
+  all: try discriminate.
+  all: try (intros w s Hn; destruct (nth_new_iws _ _ _ Hn) as [o ->]; destruct o; simpl; intros; try discriminate; auto; try exact Logic.I; fail).
+  all: try (intros; match goal with H : In _ [] |- _ => destruct H end; fail).
+  all: try (intros; match goal with H : False |- _ => destruct H end; fail).
+  all: try (intros w s Hn C l []; fail).
+  all: try (intros; constructor; fail).
+Qed.
